@@ -391,10 +391,30 @@ def channel_summaries():
         for (s, c, alive) in ex.fork_on(st, tx.chan.rx_alive, argv):
             t = deref(ex, s, c[0])
             if alive:
+                if isinstance(t.chan.cap, int) and len(t.chan.queue) >= t.chan.cap:
+                    outs.append((s, Panic('WOULD-BLOCK: send on a full bounded channel whose receiver is alive: ' + t.chan.name, 'block')))
+                    continue
                 t.chan.queue.append(c[1])
                 outs.append((s, mk_ok(Unit())))
             else:
                 outs.append((s, mk_err(Enum(1, {1: Agg({0: c[1]})}, 'mio_extras::channel::SendError'))))
+        return outs
+
+    @reg(r'^mio_extras::channel::SyncSender::<.*>::try_send$')
+    def mio_try_send(ex, st, fn, argv):
+        tx = deref(ex, st, argv[0])
+        if not isinstance(tx, SenderVal):
+            raise Unsupported(f"mio try_send on {tx!r}")
+        outs = []
+        for (s, c, alive) in ex.fork_on(st, tx.chan.rx_alive, argv):
+            t = deref(ex, s, c[0])
+            if not alive:
+                outs.append((s, mk_err(Enum(2, {2: Agg({0: c[1]})}, 'mio_extras::channel::TrySendError'))))   # Io | Full | Disconnected
+            elif isinstance(t.chan.cap, int) and len(t.chan.queue) >= t.chan.cap:
+                outs.append((s, mk_err(Enum(1, {1: Agg({0: c[1]})}, 'mio_extras::channel::TrySendError'))))
+            else:
+                t.chan.queue.append(c[1])
+                outs.append((s, mk_ok(Unit())))
         return outs
 
     @reg(r'^(mio_extras::channel::)?sync_channel::<.*>$|^mio_sync_channel::<.*>$')
